@@ -15,22 +15,46 @@ open RQ.Series
 
 /-- **stripping removes exactly `n` leading components** (the remaining name has the remaining components) -/
 theorem C16_strip_components (n : Nat) (raw : Bytes) :
-    components (stripPath n raw) = (components raw).drop n := by
-  sorry
+    components (stripPath n raw) = (components raw).drop n :=
+  components_stripPath n raw
 
 /-- comment lines and empty lines of the series file are ignored -/
 theorem C16_comment_ignored (line : Bytes) (h : line = [] ∨ line.head? = some 35) : parseLine line = .ok none := by
-  sorry
+  unfold parseLine
+  rcases h with h | h
+  · subst h; simp
+  · simp [h]
+
+theorem splitWs_noWs : ∀ (bs cur : Bytes), (∀ b ∈ bs, isWs b = false) → cur ++ bs ≠ [] →
+    splitWs bs cur = [cur ++ bs]
+  | [], cur, _, hne => by
+    cases cur with
+    | nil => simp at hne
+    | cons c cs => simp [splitWs]
+  | b :: bs, cur, hw, _ => by
+    have hb : isWs b = false := hw b (by simp)
+    rw [splitWs]
+    simp only [hb]
+    have := splitWs_noWs bs (cur ++ [b]) (fun x hx => hw x (by simp [hx])) (by simp)
+    simpa using this
 
 /-- a line with just a patch name uses the default strip level 1 and is not reversed -/
 theorem C16_default_strip (name : Bytes) (hn : name ≠ []) (hw : ∀ b ∈ name, isWs b = false) (hc : name.head? ≠ some 35) :
     parseLine name = .ok (some { name, strip := 1, reverse := false }) := by
-  sorry
+  unfold parseLine
+  have h1 : name.isEmpty = false := by cases name <;> simp_all
+  have h2 : (name.head? == some 35) = false := by simpa using hc
+  have h3 := splitWs_noWs name [] hw (by simpa using hn)
+  simp only [List.nil_append] at h3
+  simp only [h1, h2, h3]
+  rfl
 
 /-- the file to patch is never `/dev/null` (a missing name) and is one of the two names -/
 theorem C16_choose_is_name (m : Push.Mem) (fs : FS) (old new : Option Bytes) (t : Bytes)
     (h : Push.choose m fs old new = some t) : old = some t ∨ new = some t := by
-  sorry
+  unfold Push.choose at h
+  repeat' split at h
+  all_goals simp_all
 
 /-- with both names given and different: the old name iff that file currently exists — in memory if it
 was loaded (not deleted), on disk otherwise — else the new name -/
@@ -39,7 +63,15 @@ theorem C16_choose_old_iff (m : Push.Mem) (fs : FS) (o n : Bytes) (hne : compone
       some (if (match m.get o with
                 | some f => !f.deleted
                 | none => (match safeKey o with | some k => fs.exists_ k | none => false)) then o else n) := by
-  sorry
+  unfold Push.choose
+  have : (components o == components n) = false := by simpa using hne
+  simp only [this]
+  cases m.get o with
+  | none =>
+    cases safeKey o with
+    | none => simp
+    | some k => cases he : fs.exists_ k <;> simp [he]
+  | some f => cases hd : f.deleted <;> simp [hd]
 
 #print axioms C16_strip_components
 #print axioms C16_comment_ignored
